@@ -752,3 +752,99 @@ contract(FB, 'Buffer.setn', props=('C17', 'C16'), params={'self': 'self', 'args'
 _k = '%s::Buffer.setn#freed' % FB
 REGISTRY[_k] = REGISTRY.pop('%s::Buffer.setn' % FB)
 REGISTRY[_k].key = _k
+
+
+# ---- Synth.grain / Synth.new_paused ----------------------------------------------------------------------------------
+# grain: a synth nobody will address again: ONE /s_new with node id -1 (the server picks one), through the TARGET's
+#        server; no id is taken from the client's allocator.
+# new_paused: a synth object with ONE fresh id from the target's server, joining the right group, created and paused
+#        ATOMICALLY: one bundle (immediately) holding /s_new ... and /n_run id 0 for the SAME id, in this order.
+def sg_getattr(eng, obj, name, st, node):
+    if obj.k == 'ref' and obj.oid == 'target' and name == 'server':
+        return [(st, V('obj', oid='target.server'))]
+    if obj.k == 'class' and name == 'basic_new':
+        def bn(eng, a, kw, st, node):
+            nid = vint(eng.fresh('fresh_node_id', z3.IntSort()))
+            st.trace.append(('basic-new', tuple(a), nid))
+            r = V('ref', cls='NewSynth', oid='new-synth')
+            st.objs['new-synth'] = {'node_id': nid, 'def_name': a[0] if a else NONE, 'server': a[1] if len(a) > 1 else NONE}
+            return [(st, r)]
+        return [(st, V('func', py=('spec', bn)))]
+    if obj.k == 'ref' and obj.cls == 'NewSynth' and name == '_init_register':
+        def ir(eng, a, kw, st, node):
+            st.trace.append(('register', tuple(a)))
+            return [(st, NONE)]
+        return [(st, V('func', py=('spec', ir)))]
+    if obj.k == 'obj' and str(obj.oid).startswith('addr-of:') and name == 'send_bundle':
+        def sendb(eng, args, kwargs, st, node, _o=obj):
+            st.trace.append(('send_bundle', _o.oid, tuple(args)))
+            return [(st, NONE)]
+        return [(st, V('func', py=('spec', sendb)))]
+    return nc2_getattr(eng, obj, name, st, node)
+
+
+def sg_builtin(eng, name, args, kwargs, st, node):
+    return nc2_builtin(eng, name, args, kwargs, st, node)
+
+
+def snew_shape(items, c, id_ok):
+    """['/s_new', def name, id, add action number, target id, converted args...]"""
+    ok = (len(items) == 7 and items[0].k == 'str' and items[0].py == '/s_new' and items[2].k == 'int'
+          and items[3].k == 'int' and items[4].k == 'int' and items[5].k == 'any' and items[6].k == 'any'
+          and str(items[5].z) == 'arg0' and str(items[6].z) == 'arg1')
+    if not ok:
+        return None
+    return [id_ok(items[2]), items[3].z == ACT, items[4].z == z3.Int('target.node_id')]
+
+
+def grain_post(c):
+    s = [e for e in c.trace if e[0] in ('send_msg', 'send_bundle')]
+    if len(s) != 1 or s[0][0] != 'send_msg' or s[0][1] != 'addr-of:target.server' or [e for e in c.trace if e[0] in ('next-id', 'basic-new')]:
+        return z3.BoolVal(False)
+    a = list(s[0][2])
+    cl = snew_shape(a, c, lambda v: v.z == -1)
+    if cl is None or a[1] is not c._params['def_name']:
+        return z3.BoolVal(False)
+    return z3.And(*cl)
+
+
+SG = dict(fields=dict(CT_FIELDS, NewSynth={'node_id': 'int', 'def_name': 'any', 'server': 'any', 'group': 'any'}),
+          hooks={'getattr': sg_getattr, 'getitem': nc2_getitem, 'builtin': sg_builtin},
+          policies={'sc3/synth/_graphparam.py::node_param': node_param}, native=False,
+          class_modules={'Synth': F, 'Target': F, 'AbstractGroup': F, 'NewSynth': F})
+contract(F, 'Synth.grain', props=('C17', 'C16'),
+         params={'cls': 'cls', 'def_name': 'any', 'args': 'any', 'target': 'any', 'add_action': 'any'},
+         ensures=[('one-/s_new-with-id--1-through-the-targets-server;no-client-id-taken', grain_post)], **SG)
+
+
+def paused_post(c):
+    t = c.trace
+    bn = [e for e in t if e[0] == 'basic-new']
+    s = [e for e in t if e[0] in ('send_msg', 'send_bundle')]
+    regs = [e for e in t if e[0] == 'register']
+    if len(bn) != 1 or len(s) != 1 or s[0][0] != 'send_bundle' or len(regs) != 1:
+        return z3.BoolVal(False)
+    nid = bn[0][2]
+    args = s[0][2]
+    ok = (len(bn[0][1]) == 2 and bn[0][1][0] is c._params['def_name'] and bn[0][1][1].k == 'obj' and bn[0][1][1].oid == 'target.server'
+          and len(args) == 3 and args[0].k == 'none'                                        # one bundle, immediately
+          and args[1].k == 'list' and args[1].items is not None and args[2].k == 'list' and args[2].items is not None
+          and len(args[2].items) == 3 and args[2].items[0].k == 'str' and args[2].items[0].py == '/n_run'
+          and args[2].items[1].k == 'int' and args[2].items[2].k == 'int'
+          and regs[0][1][0] is c._params['register'] and t.index(regs[0]) < t.index(s[0])
+          and c.resultv.k == 'ref' and c.resultv.oid == 'new-synth')
+    if not ok:
+        return z3.BoolVal(False)
+    cl = snew_shape(args[1].items, c, lambda v: v.z == nid.z)
+    if cl is None:
+        return z3.BoolVal(False)
+    g = c.st.objs.get('new-synth', {}).get('group')
+    tgt_itself = g is not None and g.k == 'ref' and g.oid == 'target'
+    tgt_group = g is not None and same_any(g, 'target.group')
+    return z3.And(*cl, args[2].items[1].z == nid.z, args[2].items[2].z == 0,                 # paused: /n_run SAME id 0
+                  z3.If(ACT < 2, z3.BoolVal(bool(tgt_itself)), z3.BoolVal(bool(tgt_group))))
+
+
+contract(F, 'Synth.new_paused', props=('C17', 'C16'),
+         params={'cls': 'cls', 'def_name': 'any', 'args': 'any', 'target': 'any', 'add_action': 'any', 'register': 'bool'},
+         ensures=[('one-fresh-id;right-group;created-and-paused-in-ONE-bundle:/s_new-then-/n_run-id-0', paused_post)], **SG)
